@@ -18,7 +18,9 @@ EXPLANATION = (
     "the advertised chunks/name are captured from the raw expression before any rewrite; R03.2 the same shape in "
     "ChunksFreeze.lower_once for every value stored under its name; R03.3 the pin/override/freeze nodes advertise the "
     "wrapped/frozen chunks and alias same-coordinate keys over exactly that grid; R03.4 the collection's "
-    "shape/chunks/dtype/numblocks/ndim delegate to the raw expression. Per-operation chunk formulas, dtype inference "
+    "shape/chunks/dtype/numblocks/ndim delegate to the raw expression; R03.6 sibling agreement inside one node class: an operand that "
+    "several members read only through sorted(...) (an unordered set of axes: ExpandDims.axes today, discovered on every run) is never "
+    "consumed in its given order by another member - chunks, _layer, _meta and the rewrites must enumerate the axes alike. Per-operation chunk formulas, dtype inference "
     "and the sizes of computed blocks are arithmetic/values and are not decided."
 )
 ASSUMPTIONS = [
@@ -300,7 +302,92 @@ def r03_5(ctx):
     return rr
 
 
-RULES = [r03_1, r03_2, r03_3, r03_4, r03_5]
+ORDER_NORMALISERS = ("sorted",)
+
+
+def r03_6(ctx):
+    rr = RuleResult(
+        "R03.6", "COVER",
+        "sibling agreement on operand order: when several members of an expression class read an operand only through sorted(...) (the operand is an unordered set of axes), every member that consumes its elements in order does - otherwise the advertised chunks and the produced blocks enumerate the axes differently",
+        min_instances=1,
+    )
+    repo = ctx.repo
+    for ci in repo.expr_classes():
+        if not ci.module.is_unit:
+            continue
+        normalised, ordered = {}, {}
+        # a property that returns the operand sorted (``tuple(sorted(self.axes))``) is a normalising reader; members that
+        # go through it read the operand normalised
+        via_prop = {}
+        for mname, f in ci.methods.items():
+            if f.kind in ("property", "cached_property"):
+                body = [b for b in f.node.body if not (isinstance(b, ast.Expr) and isinstance(b.value, ast.Constant))]
+                if len(body) == 1 and isinstance(body[0], ast.Return) and body[0].value is not None:
+                    for x in ast.walk(body[0].value):
+                        if isinstance(x, ast.Call) and isinstance(x.func, ast.Name) and x.func.id in ORDER_NORMALISERS and x.args and isinstance(x.args[0], ast.Attribute) and unparse(x.args[0].value) == "self":
+                            via_prop[mname] = x.args[0].attr
+        for mname, f in ci.methods.items():
+            parent = {}
+            for p in ast.walk(f.node):
+                for ch in ast.iter_child_nodes(p):
+                    parent[ch] = p
+            # locals that are plain aliases of self.<operand>
+            alias = {}
+            for n in ast.walk(f.node):
+                if isinstance(n, ast.Assign) and len(n.targets) == 1 and isinstance(n.targets[0], ast.Name):
+                    v = n.value
+                    if isinstance(v, ast.Attribute) and isinstance(v.value, ast.Name) and v.value.id == "self":
+                        alias[n.targets[0].id] = v.attr
+                    elif isinstance(v, ast.Call) and unparse(v.func) == "self.operand" and v.args and isinstance(v.args[0], ast.Constant):
+                        alias[n.targets[0].id] = v.args[0].value
+
+            def operand_of(e):
+                if isinstance(e, ast.Attribute) and isinstance(e.value, ast.Name) and e.value.id == "self":
+                    return e.attr
+                if isinstance(e, ast.Call) and unparse(e.func) == "self.operand" and e.args and isinstance(e.args[0], ast.Constant):
+                    return e.args[0].value
+                if isinstance(e, ast.Name) and e.id in alias:
+                    return alias[e.id]
+                return None
+
+            for n in ast.walk(f.node):
+                if isinstance(n, ast.Attribute) and isinstance(n.value, ast.Name) and n.value.id == "self" and n.attr in via_prop and mname != n.attr:
+                    normalised.setdefault(via_prop[n.attr], {}).setdefault(mname, n)
+                    continue
+                op = operand_of(n) if isinstance(n, (ast.Attribute, ast.Call, ast.Name)) else None
+                if op is None or (isinstance(n, ast.Name) and isinstance(n.ctx, ast.Store)):
+                    continue
+                up = parent.get(n)
+                if isinstance(up, ast.Assign) and n is up.value:
+                    continue  # the aliasing assignment itself
+                if isinstance(up, ast.Call) and isinstance(up.func, ast.Name) and up.func.id in ORDER_NORMALISERS and up.args and up.args[0] is n:
+                    normalised.setdefault(op, {}).setdefault(mname, n)
+                    continue
+                in_order = (
+                    (isinstance(up, (ast.For, ast.comprehension)) and up.iter is n)
+                    or (isinstance(up, ast.Call) and isinstance(up.func, ast.Name) and up.func.id in ("enumerate", "zip", "list", "tuple", "reversed", "iter") and n in up.args)
+                    or (isinstance(up, ast.Subscript) and up.value is n)
+                    or (isinstance(up, ast.Starred))
+                )
+                if in_order:
+                    ordered.setdefault(op, {}).setdefault(mname, (f, n))
+        for op, members in sorted(normalised.items()):
+            if len(members) < 2:
+                continue
+            raw = ordered.get(op, {})
+            c = f"{ci.construct}::{op}"
+            rr.inst(c, normalised_in=sorted(members), consumed_in_given_order_in=sorted(raw))
+            for mname, (f, n) in sorted(raw.items()):
+                ctx.finding(
+                    rr, f"{c}::{mname}",
+                    f"{ci.name}.{mname} consumes the elements of `{op}` in the order given, while {sorted(members)} read it through sorted(...): the members no longer agree on which axis comes first, so the layout one of them advertises is not the layout another produces",
+                    func=f, node=n,
+                )
+    need(rr.instances, "an expression class that normalises an operand with sorted() in several members (ExpandDims.axes)")
+    return rr
+
+
+RULES = [r03_1, r03_2, r03_3, r03_4, r03_5, r03_6]
 
 LEVEL_TEXT = (
     "Static decision of the layout-barrier clause of C03 ('even when optimization internally chose a different block "
